@@ -21,6 +21,8 @@ THEOREMS (all proved, all "Closed under the global context"; fs, cwd, base, loc,
                                 `p == b or p.startswith(b + sep)` (root special case included) <-> component-wise
                                 prefix; Example sibling_needs_sep shows "/a/bc" vs "/a/b" passes without "+ sep".
                                 Also at string level: render (parse s) = s, split/join round trips (StrPrefix.v).
+  C10_contained_relative_loc    for a relative location the resolvability of base_dir follows from the open succeeding
+                                (base_resolves_if_relative_loc), so the theorem needs no hypothesis on the base.
   C10_contained / C10_contained_any   base <> "" & check = Ok & kernel resolves base to rb & open(join(base,
                                 loc)) reaches rp  ->  rb is a component prefix of rp, the node there is the regular
                                 file read (inode, bytes) and st_nlink <= 1.  (Only layers 2+3 of the check are
@@ -86,7 +88,10 @@ MUTANTS of /repo tried in a scratch worktree (all reported VIOLATION with a conc
   M7 _load opens before checking           -> open before check                                 [oracle, events]
   M8 "+ os.sep" dropped in both layers     -> ../dab/f1                                         [correspondence+oracle]
   M9 realpath(path) replaced by join(base_real, normpath(location)) -> symlink out              [correspondence+oracle]
+  M10 load() without the loop over model.functions (revert of b3a8816) -> function tensor base_dir ""  [load oracle + load_base row]
   Also: applying the function-tensor fix made the (then "known") finding stale -> reported as broken, as designed.
+  Model corrections made because the tie disagreed (model was wrong, not the code): tofile with 0 bytes to copy
+  never raises for a short file (thorough tier); generator kept inside the modelled tree (no /etc/hostname).
 """
 
 from __future__ import annotations
@@ -1207,7 +1212,7 @@ def run(ck) -> None:
 
 
 def _run(ck, tracer: Tracer) -> None:
-    n_worlds = 12 if not ck.thorough else 160
+    n_worlds = 12 if not ck.thorough else 400
     per_world = 30 if not ck.thorough else 45
     oracle_fail = []          # (item, bad)
     plans = {}
